@@ -50,10 +50,7 @@ func (h *NFSProcedureHandler) handleRead(body io.Reader, reply *RPCReply, authCt
 
 	// READ is defined for regular files only; a symlink handle must not be
 	// followed to its target.
-	node.mu.RLock()
-	isSymlink := node.attrs != nil && node.attrs.Mode&os.ModeSymlink != 0
-	node.mu.RUnlock()
-	if isSymlink {
+	if h.currentMode(node)&os.ModeSymlink != 0 {
 		return nfsErrorWithPostOp(reply, NFSERR_INVAL), nil
 	}
 
@@ -170,10 +167,7 @@ func (h *NFSProcedureHandler) handleWrite(body io.Reader, reply *RPCReply, authC
 
 	// WRITE is defined for regular files only; a symlink handle must not be
 	// followed to its target.
-	node.mu.RLock()
-	isSymlink := node.attrs != nil && node.attrs.Mode&os.ModeSymlink != 0
-	node.mu.RUnlock()
-	if isSymlink {
+	if h.currentMode(node)&os.ModeSymlink != 0 {
 		return nfsErrorWithWcc(reply, NFSERR_INVAL), nil
 	}
 
